@@ -185,6 +185,20 @@ fn go<'s, P: Parser<'s, I<'s>, Val, E<'s>>>(p: P, buf: &'s Buf, check: bool) -> 
     }
 }
 
+/// The bare `atom.pratt(ops)` (no `rest` parser behind it): mode 0 = parse, 1 = check, 2 = lazy().parse
+pub fn run_vec_bare<'s>(t: &[OpSpec], buf: &'s Buf, mode: u8) -> Result<RunOut, String> {
+    let ops: Vec<_> = t.iter().map(boxed_op).collect();
+    let p = atom().pratt(ops);
+    match mode {
+        0 => guarded(|| run_parse(&p, buf, 0, crate::drv::STEP_BUDGET)),
+        1 => guarded(|| run_check(&p, buf, 0, crate::drv::STEP_BUDGET)),
+        _ => {
+            let l = p.lazy();
+            guarded(|| run_parse(&l, buf, 0, crate::drv::STEP_BUDGET))
+        }
+    }
+}
+
 pub fn run_vec<'s>(t: &[OpSpec], buf: &'s Buf, check: bool) -> Result<RunOut, String> {
     let ops: Vec<_> = t.iter().map(boxed_op).collect();
     go(atom().pratt(ops), buf, check)
